@@ -80,7 +80,7 @@ func main() {
 	r.FloorCount("reader_views", int64(r.Pick(2000, 20000)))
 	r.FloorCount("reader_views_overlapping_apply", int64(r.Pick(200, 2000)))
 	r.FloorCount("big_txn_reader_views_overlapping_apply", int64(r.Pick(50, 300)))
-	r.FloorCount("predicate_reader_views_overlapping_apply", int64(r.Pick(500, 4000)))
+	r.FloorCount("predicate_reader_views_overlapping_apply", int64(r.Pick(150, 1500)))
 	r.FloorCount("engine_txns", int64(r.Pick(100, 1000)))
 	r.Finish()
 }
